@@ -38,9 +38,14 @@ Record upkt := mk_upkt { u_seq : N; u_ts : N; u_body : bytes; u_pos : N }.
 (* an emitted base.AvPacket: (Timestamp, Payload) *)
 Definition avout := (N * bytes)%type.
 
-(* hevc.NaluTypeMapping: the types lal treats as a single NAL unit packet *)
-Definition hevc_type_known (t : N) : bool :=
+(* the types lal treats as a single NAL unit packet: every type below 48
+   (RFC 7798 4.4.1; C07 fix, lal 3ba6189).  Before: the keys of
+   hevc.NaluTypeMapping only, so that filler data (38), end of sequence (36),
+   end of bit stream (37) and the reserved types got no position and blocked
+   the queue (Properties/C07.v c07_hevc_filler_pinned_refuted). *)
+Definition hevc_type_known_pinned (t : N) : bool :=
   (t <=? 9) || ((16 <=? t) && (t <=? 23)) || ((32 <=? t) && (t <=? 35)) || (t =? 39) || (t =? 40).
+Definition hevc_type_known (t : N) : bool := t <? 48.
 
 Definition fu_pos_of (fuhdr : N) : N :=
   if negb (N.land fuhdr 128 =? 0) then pos_fu_start
